@@ -225,7 +225,7 @@ fn gen_zorder(rng: &mut Rng, tier: Tier, cases: &mut Vec<Case>) {
         }
     }
     cases.push(z_case("zorder-boundary", &grid));
-    let count = if tier == Tier::Quick { 250 } else { 6000 };
+    let count = if tier == Tier::Quick { 1500 } else { 30000 };
     for i in 0..count {
         let n = rng.range(3, 14) as usize;
         let mut pts: Vec<P> = Vec::new();
@@ -484,14 +484,14 @@ fn generate(rng: &mut Rng, tier: Tier, cases: &mut Vec<Case>) {
     } else {
         gen_hull_grid(&mut rng.fork(), 4, 3, cases);
     }
-    gen_hull_degenerate(&mut rng.fork(), if quick { 40 } else { 1500 }, cases);
-    gen_hull_random(&mut rng.fork(), if quick { 400 } else { 30000 }, cases);
+    gen_hull_degenerate(&mut rng.fork(), if quick { 150 } else { 3000 }, cases);
+    gen_hull_random(&mut rng.fork(), if quick { 3000 } else { 60000 }, cases);
     gen_zorder(&mut rng.fork(), tier, cases);
-    gen_bbox(&mut rng.fork(), if quick { 300 } else { 20000 }, cases);
-    gen_md_clean(&mut rng.fork(), if quick { 120 } else { 5000 }, cases);
-    gen_mercator(&mut rng.fork(), if quick { 60 } else { 3000 }, cases);
-    gen_tiles(&mut rng.fork(), if quick { 60 } else { 3000 }, cases);
-    gen_scaffold(&mut rng.fork(), if quick { 25 } else { 400 }, cases);
+    gen_bbox(&mut rng.fork(), if quick { 1500 } else { 30000 }, cases);
+    gen_md_clean(&mut rng.fork(), if quick { 500 } else { 10000 }, cases);
+    gen_mercator(&mut rng.fork(), if quick { 300 } else { 6000 }, cases);
+    gen_tiles(&mut rng.fork(), if quick { 300 } else { 6000 }, cases);
+    gen_scaffold(&mut rng.fork(), if quick { 60 } else { 600 }, cases);
 }
 
 // ------------------------------------------------------------------------------------------------
@@ -524,7 +524,11 @@ fn exec_zorder(ops: &[Vec<&str>], obs: &mut Vec<String>) {
                 std::cmp::Ordering::Greater => 'G',
             })
             .collect();
-        obs.push(format!("D z {i} {row}"));
+        // the order itself is not determined by the property (any strict total order consistent with equality
+        // would do): class F; what is determined is where the answer is Equal
+        obs.push(format!("F z {i} {row}"));
+        let eq: String = row.chars().map(|c| if c == 'E' { 'E' } else { 'N' }).collect();
+        obs.push(format!("D zeq {i} {eq}"));
     }
 }
 
@@ -557,7 +561,8 @@ fn exec_bbox(ops: &[Vec<&str>], obs: &mut Vec<String>) {
             }
             "c" => {
                 let c = b.center();
-                obs.push(format!("D c {k} {} {}", c.lat, c.lon));
+                // the rounding of the centre is not fixed by the property: class F, validated by the judge
+                obs.push(format!("F c {k} {} {}", c.lat, c.lon));
             }
             _ => panic!("bad bbox op"),
         }
@@ -898,9 +903,9 @@ fn exec_scaffold(ops: &[Vec<&str>], obs: &mut Vec<String>) {
         obs.push(format!("D schull {ids} {}", pts_str(&canon_hull(cell, open))).trim_end().to_string());
         // geojson bbox order: min lon, min lat, max lon, max lat
         if bb.len() == 4 {
-            obs.push(format!("D scbox {ids} {} {} {} {}", bb[1], bb[0], bb[3], bb[2]));
+            obs.push(format!("F scbox {ids} {} {} {} {}", bb[1], bb[0], bb[3], bb[2]));
         } else {
-            obs.push(format!("D scbox {ids} none"));
+            obs.push(format!("F scbox {ids} none"));
         }
     }
     let _ = std::fs::remove_dir_all(&dir);
